@@ -1665,3 +1665,43 @@ class SSymSet:
 
     def sym_len(self, run):
         return self.size
+
+
+@external("numpy.abs", "numpy.absolute", "numpy.fabs")
+def np_abs(engine, run, a, k):
+    return _lift(lambda run2, x: z3.If(to_real(x) >= 0, to_real(x), -to_real(x)) if not is_concrete_num(x) else abs(x))(run, a[0])
+
+
+def _np_anyall(is_any):
+    def f(engine, run, a, k):
+        v = a[0]
+        if isinstance(v, SArr):
+            ts = [ops.truth_term(run, x) for x in v.elems]
+        elif isinstance(v, (list, tuple)):
+            ts = [ops.truth_term(run, x) for x in v]
+        else:
+            raise Undecided("np.any / np.all of a symbolic-shape array")
+        if all(isinstance(t, bool) for t in ts):
+            return any(ts) if is_any else all(ts)
+        zs = [to_z3(t) for t in ts]
+        return z3.Or(*zs) if is_any else z3.And(*zs)
+    return f
+
+
+EXTERNALS["numpy.any"] = _np_anyall(True)
+EXTERNALS["numpy.all"] = _np_anyall(False)
+
+
+class _FInfo:
+    def sym_getattr(self, run, attr):
+        if attr in ("eps", "tiny", "resolution"):
+            e = z3.Real("float_" + attr)
+            run.define(e > 0, "np.finfo(float): a positive constant")
+            return e
+        from .engine import _MISSING as M
+        return M
+
+
+@external("numpy.finfo")
+def np_finfo(engine, run, a, k):
+    return _FInfo()
